@@ -162,7 +162,11 @@ class MinPathCoverCycles(walkmodel.AbstractWalkModelDiGraph):
             model.solve()
 
             if model.is_solved():
-                self._solution = model.get_solution()
+                self._solution = dict(model.get_solution())
+                if self.cover_type == "node":
+                    # The k-model worked on the node-expanded graph: convert its walks to walks in the original graph.
+                    self._solution["_walks_internal"] = self._solution["walks"]
+                    self._solution["walks"] = self.G_internal.get_condensed_paths(self._solution["walks"])
                 self.set_solved()
                 self.solve_statistics = model.solve_statistics
                 self.solve_statistics["mpc_solve_time"] = time.perf_counter() - self.solve_time_start
